@@ -22,7 +22,8 @@ package app
 //       speaks about floors that were *set*). Whether a "slightly above" floor
 //       is accepted depends on how far the wall clock moved in between — both
 //       outcomes are legal and only counted.
-//   (4) cross-check: porcupine on contiguous windows (<= 2000 ops) of the
+//   (4) cross-check: porcupine on sub-histories (<= ~2000 ops: contiguous
+//       windows for narrow runs, randomly thinned regions for wide ones) of the
 //       history with the sequential model "state = low-water mark; Next->v legal
 //       iff v > low; SetFloor(f)->nil raises low to max(low,f)". Any sub-history
 //       of a history that is linearizable for this model is linearizable, so
@@ -59,10 +60,11 @@ const (
 	c30FloorAt
 	c30FloorAbove
 	c30FloorFar
+	c30FloorRestore // greatest id of the previous allocator instance (restart + restore), set before any Next
 	c30FloorClasses
 )
 
-var c30FloorClassName = [...]string{"below", "at", "above", "far"}
+var c30FloorClassName = [...]string{"below", "at", "above", "far", "restored-max"}
 
 type c30Rec struct {
 	Call int64  `json:"call"`
@@ -119,7 +121,7 @@ var c30Model = porcupine.Model{
 func c30PickFloor(rng interface {
 	IntN(int) int
 	Uint64() uint64
-}, last uint64) (uint64, uint8) {
+}, last, older uint64) (uint64, uint8) {
 	const ms = uint64(1) << 22
 	switch rng.IntN(10) {
 	case 0, 1: // below
@@ -148,9 +150,19 @@ func c30PickFloor(rng interface {
 		}
 	case 2, 3: // exactly the most recent id this caller obtained
 		return last, c30FloorAt
-	case 4, 5, 6, 7: // slightly above: same ms / next few ms
+	case 4, 5, 6, 7: // slightly above an id this caller obtained recently: same ms / next few ms
+		// (based on an id up to 64 own calls old, so that the natural clock has
+		// sometimes passed the floor and sometimes not; classified against the
+		// newest own id below)
 		ds := [...]uint64{1, 2, 17, 255, 4095, 4096, 1 << 13, ms - 1, ms, ms + 1, 2 * ms, 3 * ms, 5 * ms, 20 * ms, 100 * ms}
-		return last + ds[rng.IntN(len(ds))], c30FloorAbove
+		f := older + ds[rng.IntN(len(ds))]
+		switch {
+		case f < last:
+			return f, c30FloorBelow
+		case f == last:
+			return f, c30FloorAt
+		}
+		return f, c30FloorAbove
 	default: // far in the future
 		switch rng.IntN(6) {
 		case 0:
@@ -177,10 +189,11 @@ func TestVerifC30(t *testing.T) {
 	r.Assume("All allocators under test are created by newNodeMessageIDs; one allocator per case.")
 
 	gs := []int{1, 2, 3, 4, 6, 8, 12, 16, 24, 32, 48, 64}
-	nCases := r.N(24, 120)
-	perCase := r.N(25_000, 250_000)
-	pWindows := r.N(2, 4)
+	nCases := r.N(24, 60)
+	perCase := r.N(25_000, 100_000)
+	pWindows := r.N(1, 3)
 
+	prevMax := uint64(0)
 	for ci := 0; ci < nCases; ci++ {
 		if r.Skip(ci) {
 			continue
@@ -238,6 +251,23 @@ func TestVerifC30(t *testing.T) {
 			floorSamples = n
 		}()
 
+		// restart + restore: the new instance is fenced with the greatest id the
+		// previous instance (previous case) issued, before its first Next.
+		if prevMax != 0 {
+			f := prevMax
+			if crng.IntN(3) == 0 {
+				f += uint64(crng.IntN(4096))
+			}
+			c := clock.Add(1)
+			e := ids.SetFloor(f)
+			rt := clock.Add(1)
+			k := c30KindFloorNil
+			if e != nil {
+				k = c30KindFloorErr
+			}
+			workers[0].recs = append(workers[0].recs, c30Rec{Call: c, Ret: rt, Val: f, Kind: k, Cls: c30FloorRestore, G: 0})
+		}
+
 		var start, done sync.WaitGroup
 		start.Add(1)
 		for g := 0; g < G; g++ {
@@ -247,10 +277,18 @@ func TestVerifC30(t *testing.T) {
 				w := workers[g]
 				rng := r.Rand(30, uint64(ci), uint64(g)+1)
 				var last uint64
+				var recent [64]uint64 // ring of this goroutine's newest ids
 				start.Wait()
 				for i := 0; i < per; i++ {
 					if last != 0 && rng.IntN(floorEvery) == 0 {
-						f, cls := c30PickFloor(rng, last)
+						older := last
+						if rng.IntN(3) > 0 {
+							older = recent[rng.IntN(len(recent))]
+							if older == 0 {
+								older = last
+							}
+						}
+						f, cls := c30PickFloor(rng, last, older)
 						c := clock.Add(1)
 						e := ids.SetFloor(f)
 						rt := clock.Add(1)
@@ -272,6 +310,7 @@ func TestVerifC30(t *testing.T) {
 						w.floorBelowID++
 					}
 					last = id
+					recent[i&63] = id
 				}
 			}(g)
 		}
@@ -330,6 +369,7 @@ func TestVerifC30(t *testing.T) {
 					maxID = x.Val
 				}
 			}
+			prevMax = maxID
 			if fl := ids.floor.Load(); fl < maxID {
 				r.Violation("floor-below-issued-id:quiescent", map[string]any{"G": G, "max_id": maxID, "floor": fl})
 			}
@@ -405,7 +445,7 @@ func TestVerifC30(t *testing.T) {
 			}
 			if haveFloor {
 				floorConstrained++
-				if maxFloor.Cls >= c30FloorAbove {
+				if maxFloor.Cls == c30FloorAbove || maxFloor.Cls == c30FloorFar {
 					floorAboveBinding++
 				}
 				if b.Val <= maxFloor.Val {
@@ -420,38 +460,62 @@ func TestVerifC30(t *testing.T) {
 		r.Count("floor_constrained_calls_above", floorAboveBinding)
 		r.Count("floor_violations", floorViol)
 
-		// (4) porcupine on windows
+		// (4) porcupine on sub-histories. Any subset of the operations of a
+		// history that is linearizable for c30Model is linearizable, so both
+		// contiguous windows and thinned regions are sound. The checker is
+		// exponential in the number of simultaneously open calls, so wide runs
+		// are thinned to an expected ~4 open calls; a timeout is retried on a
+		// sparser thinning of the same region before it is declared inconclusive.
 		for wv := 0; wv < pWindows && len(all) > 0; wv++ {
 			L := 200 + crng.IntN(1801)
-			if L > len(all) {
-				L = len(all)
+			rho := 1.0
+			if G > 4 {
+				rho = 4.0 / float64(G)
 			}
-			off := 0
-			if len(all) > L {
-				off = crng.IntN(len(all) - L + 1)
+			region := int(float64(L) / rho)
+			if region > len(all) {
+				region = len(all)
 			}
-			ops := make([]porcupine.Operation, 0, L)
-			for _, x := range all[off : off+L] {
-				in := c30In{Kind: 0}
-				out := c30Out{ID: x.Val}
-				if x.Kind != c30KindNext {
-					in = c30In{Kind: 1, F: x.Val}
-					out = c30Out{Nil: x.Kind == c30KindFloorNil}
+			off := crng.IntN(len(all) - region + 1)
+			res := porcupine.Unknown
+			nOps := 0
+			for attempt := 0; attempt < 4 && res == porcupine.Unknown; attempt++ {
+				ops := make([]porcupine.Operation, 0, L+L/4)
+				for _, x := range all[off : off+region] {
+					if rho < 1 && crng.Float64() >= rho {
+						continue
+					}
+					in := c30In{Kind: 0}
+					out := c30Out{ID: x.Val}
+					if x.Kind != c30KindNext {
+						in = c30In{Kind: 1, F: x.Val}
+						out = c30Out{Nil: x.Kind == c30KindFloorNil}
+					}
+					ops = append(ops, porcupine.Operation{ClientId: int(x.G), Input: in, Call: x.Call, Output: out, Return: x.Ret})
 				}
-				ops = append(ops, porcupine.Operation{ClientId: int(x.G), Input: in, Call: x.Call, Output: out, Return: x.Ret})
+				nOps = len(ops)
+				res = porcupine.CheckOperationsTimeout(c30Model, ops, 40*time.Second)
+				if res == porcupine.Unknown {
+					r.Count("porcupine.timeout_retried_sparser", 1)
+					rho /= 2
+				}
 			}
-			res := porcupine.CheckOperationsTimeout(c30Model, ops, 120*time.Second)
 			r.Count("porcupine."+string(res), 1)
-			r.Count("porcupine.ops", L)
+			r.Count("porcupine.ops", nOps)
+			if rho < 1 {
+				r.Count("porcupine.thinned_subhistories", 1)
+			} else {
+				r.Count("porcupine.contiguous_windows", 1)
+			}
 			switch res {
 			case porcupine.Illegal:
-				w := all[off : off+L]
+				w := all[off : off+region]
 				if len(w) > 60 {
 					w = w[:60]
 				}
-				r.Violation("porcupine-illegal", map[string]any{"G": G, "window_off": off, "window_len": L, "first_ops": w})
+				r.Violation("porcupine-illegal", map[string]any{"G": G, "region_off": off, "region_len": region, "thinning": rho, "first_records_of_region": w})
 			case porcupine.Unknown:
-				r.Inconclusive(fmt.Sprintf("case %d: porcupine timed out on a %d-op window (G=%d)", ci, L, G))
+				r.Inconclusive(fmt.Sprintf("case %d: porcupine timed out on a %d-op sub-history even after thinning (G=%d)", ci, nOps, G))
 			}
 		}
 
@@ -461,7 +525,7 @@ func TestVerifC30(t *testing.T) {
 			for v := maxOverlap; v > 1; v >>= 1 {
 				ob++
 			}
-			r.Nontrivial(fmt.Sprintf("c%d|G%d|ov%d|fl%v", ci, G, ob, [4]bool{acceptedCls[0] > 0, acceptedCls[1] > 0, acceptedCls[2] > 0, acceptedCls[3] > 0}))
+			r.Nontrivial(fmt.Sprintf("c%d|G%d|ov%d|fl%v", ci, G, ob, [5]bool{acceptedCls[0] > 0, acceptedCls[1] > 0, acceptedCls[2] > 0, acceptedCls[3] > 0, acceptedCls[4] > 0}))
 		}
 		if r.WantSample() && len(all) > 0 && ci%5 == 1 {
 			n := len(all)
